@@ -23,7 +23,7 @@ def handle (line : String) : String :=
   | ["any", e, p, d, a, f, n] =>
     if natOf n = 0 then "panic" else toString (exploreAny (natOf e) (natOf p) (natOf d) (natOf a) (natOf f) (natOf n))
   | ["init", s, k, pts] =>
-    match kmeansInit (natOf s) (natOf k) ((pts.splitOn ";").map parsePoint) with
+    match layerInit (natOf s) (natOf k) ((pts.splitOn ";").map parsePoint) with
     | some is => ",".intercalate (is.map toString)
     | none => "panic"
   | _ => "bad-op"
